@@ -366,6 +366,26 @@ def bounded_interleavings(seed, n_hist, steps):
             nx.move(V(-1, -2, 3))
             x2 = copy.deepcopy(x)
             x2.move(V(2, 2, 2))
+        # a deep copy of a body is equal to it, shares nothing with it and keeps its answers when the original is moved far away afterwards
+        for x in list(pool):
+            if not isinstance(x, (g.ConvexPolyhedron, g.ConvexPolygon)):
+                continue
+            kname = "deepcopy:" + type(x).__name__
+            try:
+                cp = copy.deepcopy(x)
+                ev += 1
+                classes.add(kname)
+                before = (_native_snapshot(cp), [getattr(cp, m)() for m in ("length", "area", "volume") if hasattr(cp, m)], g.volume(cp) if isinstance(cp, g.ConvexPolyhedron) else 0)
+                if not (cp == x and x == cp) or (mutable_ids(cp) & mutable_ids(x)):
+                    fail(kname, "deep copy not equal to / not independent of the original (shared mutable objects: %d)" % len(mutable_ids(cp) & mutable_ids(x)), dict(obj=repr(x)))
+                far = (Fraction(40), Fraction(-30), Fraction(20))
+                x.move(V(*[O.to_number(c, "float") for c in far]))
+                exacts[id(x)] = K.transform(exacts[id(x)], K.IDENTITY, far, 1)
+                after = (_native_snapshot(cp), [getattr(cp, m)() for m in ("length", "area", "volume") if hasattr(cp, m)], g.volume(cp) if isinstance(cp, g.ConvexPolyhedron) else 0)
+                if after[0] != before[0] or not all(close(p_, q_) for p_, q_ in zip(after[1], before[1])) or not close(after[2], before[2]):
+                    fail(kname, "moving the original changed its deep copy (measures %r -> %r)" % (before[1:], after[1:]), dict(obj=repr(cp)))
+            except Exception as e:
+                fail(kname, "raised %r" % (e,), dict(obj=repr(x)))
         # polyhedron ownership: mutate the face polygons after construction
         for ph in K.polyhedra(rng, 1):
             faces = [O.to_lib(("Polygon", f), "float") for f in ph[1]]
